@@ -103,7 +103,6 @@ pub open spec fn sem_ext2mul(s: Seq<Felt>) -> Seq<Felt> {
 }
 
 // ---- one VM step as a relation over (stack view, system registers) -----------------------------
-pub struct Regs { pub clk: int, pub fmp: Felt, pub ctx: int, pub in_syscall: bool, pub fn_hash: Seq<Felt> }
 pub open spec fn same_regs_but_clk(g: Regs, g2: Regs) -> bool {
     g2.fmp == g.fmp && g2.ctx == g.ctx && g2.in_syscall == g.in_syscall && g2.fn_hash == g.fn_hash
 }
